@@ -91,6 +91,7 @@ const (
 	OutInvalid   = "invalid"     // the scenario is not a conformant message sequence (generator/minimiser artefact)
 	OutRecovered = "swallowed-panic"
 	OutBadReply  = "error-reply"
+	OutLockLeak  = "lock-leak" // quiescent, every request answered, yet a mutex is still locked
 )
 
 // Answer is the reply to one request op.
@@ -354,6 +355,12 @@ func (e *Engine) Settle() {
 			e.fail(OutStuck, fmt.Sprintf("request op#%d %s unanswered at quiescence with nothing runnable", a.Op, a.Method))
 			return
 		}
+	}
+	// nothing runnable, nobody waiting for a lock, every request answered: no goroutine is inside a
+	// critical section, so a mutex that is still locked was locked on a path that never unlocks it
+	// (the next message that needs it will hang)
+	if h := simrt.HeldLocks(); len(h) > 0 {
+		e.fail(OutLockLeak, "mutex still locked at quiescence with every request answered, locked at: "+strings.Join(h, ","))
 	}
 }
 
